@@ -18,64 +18,103 @@
 (* property; yielding while the lock is still held deadlocks.                       *)
 EXTENDS Naturals, Sequences, FiniteSets
 
-CONSTANTS NSpans, Batch, LazyMap, YieldInsideLock
+CONSTANTS
+  \* @type: Int;
+  NSpans,
+  \* @type: Int;
+  Batch,
+  \* @type: Bool;
+  LazyMap,
+  \* @type: Bool;
+  YieldInsideLock
 
-VARIABLES pc, holder, next, reading, done, pending, writing, written
-vars == <<pc, holder, next, reading, done, pending, writing, written>>
+VARIABLES
+  \* @type: Str;
+  pc,
+  \* @type: Str;
+  holder,
+  \* @type: Int;
+  next,
+  \* @type: Set(Int);
+  reading,
+  \* @type: Set(Int);
+  done,
+  \* the results of the current batch that are still to be yielded: always the run of span numbers plo .. phi (empty: plo > phi)
+  \* @type: Int;
+  plo,
+  \* @type: Int;
+  phi,
+  \* @type: Bool;
+  writing,
+  \* @type: Set(Int);
+  written
+vars == <<pc, holder, next, reading, done, plo, phi, writing, written>>
 
-Spans == 1..NSpans
+SpanBound == 12                                   \* (a constant range keeps the module checkable by Apalache as well)
+ASSUME NSpans <= SpanBound
+Spans == {s \in 1..SpanBound : s <= NSpans}
 BatchOf(k) == {s \in Spans : s >= k /\ s < k + Batch}
 
 Init == /\ pc = "iter" /\ holder = "none" /\ next = 1 /\ reading = {} /\ done = {}
-        /\ pending = <<>> /\ writing = FALSE /\ written = {}
+        /\ plo = 1 /\ phi = 0 /\ writing = FALSE /\ written = {}
 
 \* iterator: take the lock and dispatch the next batch
 Dispatch == /\ pc = "iter" /\ next <= NSpans /\ holder = "none"
             /\ holder' = "iter" /\ reading' = BatchOf(next) /\ pc' = "map"
-            /\ UNCHANGED <<next, done, pending, writing, written>>
+            /\ UNCHANGED <<next, done, plo, phi, writing, written>>
 \* a worker finishes reading its span
 WorkerDone(s) == /\ s \in reading /\ reading' = reading \ {s} /\ done' = done \cup {s}
-                 /\ UNCHANGED <<pc, holder, next, pending, writing, written>>
+                 /\ UNCHANGED <<pc, holder, next, plo, phi, writing, written>>
 \* the map returns: blocking = all workers of the batch are done; lazy = at least the first result is there
 MapReturns == /\ pc = "map"
               /\ IF LazyMap THEN next \in done ELSE reading = {}
-              /\ pending' = [k \in 1..Cardinality(BatchOf(next)) |-> next + k - 1]
+              /\ plo' = next /\ phi' = (IF next + Batch - 1 <= NSpans THEN next + Batch - 1 ELSE NSpans)
               /\ pc' = IF YieldInsideLock THEN "yield" ELSE "release"
               /\ UNCHANGED <<holder, next, reading, done, writing, written>>
 Release == /\ pc = "release" /\ holder' = "none" /\ pc' = "yield"
-           /\ UNCHANGED <<next, reading, done, pending, writing, written>>
+           /\ UNCHANGED <<next, reading, done, plo, phi, writing, written>>
 \* the iterator yields the next result of the batch (it must have been computed); control passes to the writer
-Yield == /\ pc = "yield" /\ Len(pending) > 0 /\ Head(pending) \in done
-         /\ pc' = "wacquire" /\ UNCHANGED <<holder, next, reading, done, pending, writing, written>>
+Yield == /\ pc = "yield" /\ plo <= phi /\ plo \in done
+         /\ pc' = "wacquire" /\ UNCHANGED <<holder, next, reading, done, plo, phi, writing, written>>
 WAcquire == /\ pc = "wacquire" /\ holder = "none" /\ holder' = "writer" /\ writing' = TRUE /\ pc' = "write"
-            /\ UNCHANGED <<next, reading, done, pending, written>>
-WRelease == /\ pc = "write" /\ writing' = FALSE /\ holder' = "none" /\ written' = written \cup {Head(pending)}
-            /\ pending' = Tail(pending)
-            /\ pc' = IF Len(pending) > 1 THEN "yield" ELSE "batchend"
-            /\ UNCHANGED <<next, reading, done>>
+            /\ UNCHANGED <<next, reading, done, plo, phi, written>>
+WRelease == /\ pc = "write" /\ writing' = FALSE /\ holder' = "none" /\ written' = written \cup {plo}
+            /\ plo' = plo + 1
+            /\ pc' = IF plo < phi THEN "yield" ELSE "batchend"
+            /\ UNCHANGED <<next, reading, done, phi>>
 BatchEnd == /\ pc = "batchend"
-            /\ (YieldInsideLock => holder' = "none") /\ (~YieldInsideLock => UNCHANGED holder)
+            /\ holder' = IF YieldInsideLock THEN "none" ELSE holder
             /\ next' = next + Batch /\ pc' = IF next + Batch > NSpans THEN "finished" ELSE "iter"
-            /\ UNCHANGED <<reading, done, pending, writing, written>>
+            /\ UNCHANGED <<reading, done, plo, phi, writing, written>>
 Next == Dispatch \/ (\E s \in Spans : WorkerDone(s)) \/ MapReturns \/ Release \/ Yield \/ WAcquire \/ WRelease \/ BatchEnd
 Spec == Init /\ [][Next]_vars /\ WF_vars(Next)
 
 NoWriteWhileReading == ~(writing /\ reading # {})
-EveryChunkWrittenOnce == pc = "finished" => written = Spans
-Terminates == <>(pc = "finished")
-\* trace validation (the fold in CoarsenTrace uses these): the events a real run may emit, in order
-\* ev.e \in {"A_iter", "R_iter", "A_writer", "R_writer", "RB", "RE"}; state = [holder, reading]
-LockStep(st, ev) ==
-  IF ev.e = "A_iter" THEN IF st.holder = "none" /\ st.reading = {} THEN [st EXCEPT !.holder = "iter"] ELSE [st EXCEPT !.bad = TRUE]
-  ELSE IF ev.e = "RB" THEN IF st.holder = "iter" THEN [st EXCEPT !.reading = @ \cup {ev.s}] ELSE [st EXCEPT !.bad = TRUE]
-  ELSE IF ev.e = "RE" THEN IF ev.s \in st.reading THEN [st EXCEPT !.reading = @ \ {ev.s}] ELSE [st EXCEPT !.bad = TRUE]
-  ELSE IF ev.e = "R_iter" THEN IF st.holder = "iter" /\ st.reading = {} THEN [st EXCEPT !.holder = "none"] ELSE [st EXCEPT !.bad = TRUE]
-  ELSE IF ev.e = "A_writer" THEN IF st.holder = "none" /\ st.reading = {} THEN [st EXCEPT !.holder = "writer"] ELSE [st EXCEPT !.bad = TRUE]
-  ELSE IF ev.e = "R_writer" THEN IF st.holder = "writer" THEN [st EXCEPT !.holder = "none"] ELSE [st EXCEPT !.bad = TRUE]
-  ELSE [st EXCEPT !.bad = TRUE]
-RECURSIVE LockFold(_, _, _)
-LockFold(st, evs, k) == IF k > Len(evs) THEN st ELSE LockFold(LockStep(st, evs[k]), evs, k + 1)
-LockTraceOK(evs) ==
-  LET fin == LockFold([holder |-> "none", reading |-> {}, bad |-> FALSE], evs, 1) IN
-    ~fin.bad /\ fin.holder = "none" /\ fin.reading = {}
+
+\* ---------------------------------------------------------------------------------------------
+\* An INDUCTIVE invariant of the design as implemented (blocking map, release before yield), discharged by Apalache for
+\* symbolic NSpans and Batch (tools: apalache-mc check --init=IndInit --inv=IndInv --length=1, and Init => IndInv):
+\* the workers read only while the iterator holds the lock in its "map" phase; the writer writes only while it holds the
+\* lock, which it can take only when nobody holds it - and nobody reads then.
+PCs == {"iter", "map", "release", "yield", "wacquire", "write", "batchend", "finished"}
+IndInv ==
+  /\ pc \in PCs /\ holder \in {"none", "iter", "writer"} /\ writing \in BOOLEAN
+  /\ next >= 1 /\ next <= NSpans + Batch /\ plo >= 1 /\ plo <= NSpans + 1 /\ phi >= 0 /\ phi <= NSpans
+  /\ (\A s \in reading : s >= 1 /\ s <= NSpans) /\ (\A s \in done : s >= 1 /\ s <= NSpans)
+  /\ (\A s \in written : s >= 1 /\ s <= NSpans)
+  /\ (pc # "finished" => next <= NSpans)
+  /\ (pc \in {"wacquire", "write"} => plo <= phi)
+  /\ (reading # {} => (pc = "map" /\ holder = "iter"))
+  /\ (pc \in {"map", "release"} <=> holder = "iter")
+  /\ (pc = "write" <=> holder = "writer")
+  /\ (writing <=> pc = "write")
+  /\ NoWriteWhileReading
+\* @type: () => Bool;
+ConstInit == NSpans \in 1..12 /\ Batch \in 1..6 /\ LazyMap = FALSE /\ YieldInsideLock = FALSE
+\* (Apalache wants constant ranges in the generator: 12 and 6 are the bounds of ConstInit)
+IndInit ==
+  /\ pc \in PCs /\ holder \in {"none", "iter", "writer"} /\ writing \in BOOLEAN
+  /\ next \in 1..18 /\ plo \in 1..13 /\ phi \in 0..12
+  /\ reading \in SUBSET (1..12) /\ done \in SUBSET (1..12) /\ written \in SUBSET (1..12)
+  /\ IndInv
 =============================================================================
